@@ -68,6 +68,51 @@ func mutate(r *rand.Rand, b []byte) []byte {
 	return o
 }
 
+// tailcut builds a message whose LAST record (a zoo record, or an OPT carrying exactly one
+// option) is shortened by k octets at the end with RDLENGTH (and the option length) fixed up:
+// every inner length/count/prefix claim of that record then reaches past the end of the
+// input, which has no spare capacity, so a missing bounds check is an out-of-range panic.
+func tailcut(r *rand.Rand, all []dns.RR) []byte {
+	m := new(dns.Msg)
+	m.SetQuestion("example.org.", dns.TypeA)
+	var last dns.RR
+	isOpt := r.Intn(2) == 0
+	if isOpt {
+		o := zoo.Opt()
+		o.Option = []dns.EDNS0{o.Option[r.Intn(len(o.Option))]}
+		last = o
+	} else {
+		last = dns.Copy(all[r.Intn(len(all))])
+	}
+	m.Extra = []dns.RR{last}
+	b, err := m.Pack()
+	if err != nil {
+		return nil
+	}
+	// locate the last record's RDLENGTH: question is 12+13+4 = 29 octets; owner of `last` follows
+	off := 29
+	_, off, err = dns.UnpackDomainName(b, off)
+	if err != nil || off+10 > len(b) {
+		return nil
+	}
+	rdlenAt := off + 8
+	rdlen := int(binary.BigEndian.Uint16(b[rdlenAt:]))
+	if rdlen == 0 {
+		return b
+	}
+	k := 1 + r.Intn(rdlen)
+	if r.Intn(2) == 0 && k > 4 {
+		k = 1 + r.Intn(4)
+	}
+	o := append([]byte(nil), b[:len(b)-k]...)
+	binary.BigEndian.PutUint16(o[rdlenAt:], uint16(rdlen-k))
+	if isOpt && rdlen-k >= 4 { // single option: code(2) len(2) data
+		optLenAt := rdlenAt + 2 + 2
+		binary.BigEndian.PutUint16(o[optLenAt:], uint16(rdlen-k-4))
+	}
+	return o
+}
+
 func record(epath string, n int) {
 	r := hx.Rand()
 	w := hx.NewWriter(epath)
@@ -92,6 +137,12 @@ func record(epath string, n int) {
 		if r.Intn(4) == 0 {
 			in = mutate(r, in)
 		}
+		if i%3 == 1 {
+			if t := tailcut(r, all); t != nil {
+				in = t
+			}
+		}
+		in = exact(in)
 		seen[string(in)] = true
 		sum.Evaluations++
 		tryMsg(in, w, 700)
